@@ -1424,6 +1424,54 @@ fn drive_with_session_key(bytes: &[u8], sk: &PlainSessionKey, variant: u64) -> O
     o
 }
 
+/// F2v1: SEIPDv1 (tag 18, version 1) and SED (tag 9) containers cut at every length behind a complete, correct
+/// CFB prefix (0..44 further octets: less than an MDC, exactly an MDC, more), every cipher, the right session
+/// key, all three read modes.
+fn f2_v1_short(ctx: &mut Ctx) {
+    let inner = literal(b"hello c04 seipd1 hello c04 seipd1");
+    for &alg in rfc::sym::ALL_CIPHERS.iter() {
+        let Some(bs) = rfc::sym::block_size(alg) else { continue };
+        let Some(ks) = rfc::sym::key_size(alg) else { continue };
+        if !ctx.mine() {
+            continue;
+        }
+        let mut rng = ctx.rng("F2v1", alg as u64);
+        let key = rnd_bytes(&mut rng, ks);
+        let prefix = rnd_bytes(&mut rng, bs);
+        let Some(full) = rfc::sym::seipd_v1_encrypt(alg, &key, &prefix, &inner) else { continue };
+        let Some(full_sed) = rfc::sym::sed_encrypt(alg, &key, &prefix, &inner) else { continue };
+        let sk = PlainSessionKey::V3_4 { sym_alg: SymmetricKeyAlgorithm::from(alg), key: key.clone().into() };
+        let mut obs = Obs::default();
+        for k in 0..=44usize {
+            for (tag, ct) in [(18u8, &full), (9u8, &full_sed)] {
+                let cut = (bs + 2 + k).min(ct.len());
+                let mut body = vec![];
+                if tag == 18 {
+                    body.push(1u8);
+                }
+                body.extend_from_slice(&ct[..cut]);
+                let bytes = pkt(tag, &body);
+                for variant in 0..3u64 {
+                    let desc = format!("F2v1:tag{tag}/cipher={alg}/octets-behind-prefix={k}/mode={}", ["default", "checkfirst-64", "streaming"][variant as usize]);
+                    ctx.cover(&("F2v1", tag, alg, k, variant));
+                    ctx.seen("F2v1.tail", if k < 22 { "shorter-than-mdc" } else if k == 22 { "mdc-only" } else { "longer" });
+                    let o = run_case(
+                        ctx,
+                        "F2",
+                        &desc,
+                        || json!({"family": "F2v1", "tag": tag, "cipher": alg, "octets_behind_prefix": k, "mode": variant, "session_key": hexfull(&key), "input": hexfull(&bytes)}),
+                        || drive_with_session_key(&bytes, &sk, variant * 4 + variant),
+                    );
+                    if let Some(o) = o {
+                        obs.merge(&o);
+                    }
+                }
+            }
+        }
+        obs.tally(ctx, "F2v1");
+    }
+}
+
 fn f2(ctx: &mut Ctx) {
     let inner = literal(b"hello c04 seipd2");
     let base_cfgs: [(u8, u8, u8); 5] = [(7, 2, 0), (9, 1, 0), (8, 3, 1), (9, 2, 6), (7, 3, 16)];
@@ -5558,6 +5606,7 @@ pub fn run(ctx: &mut Ctx) {
     }
     if want("F2") {
         f2(ctx);
+        f2_v1_short(ctx);
     }
     if want("F3") {
         f3(ctx);
